@@ -50,6 +50,7 @@ type script struct {
 	//   busy-handler     the caller gives up while the handler is busy with something that does not watch the call's
 	//                    context (it waits for a gate the caller opens only AFTER it has its own outcome): the caller
 	//                    hears of its cancellation / deadline at once, not when the handler gets round to answering
+	//   cancel-after-end the caller cancels its context AFTER it has read the call to its end, then asks for the trailers
 	//   giveup           the caller gives up (deadline / cancel) while the handler, which has set headers and trailers,
 	//                    is still waiting: headers never sent and trailers never reach a caller that left first
 	Quirk string
@@ -423,6 +424,9 @@ func runClient(c tp.TestApiClient, sc script, mkCtx func(deadline bool) (context
 			h, _ := stream.Header()
 			tr = append(tr, "header="+userMD(h))
 		}
+		if sc.Quirk == "cancel-after-end" {
+			cancel() // the call is over and was read to its end: what it delivered stays delivered
+		}
 		tr = append(tr, "trailer="+userMD(stream.Trailer()))
 		// what Header and Trailer hand out is the caller's own: writing on it does not show in the next call
 		if h1, _ := stream.Header(); h1 != nil {
@@ -451,6 +455,9 @@ func runClient(c tp.TestApiClient, sc script, mkCtx func(deadline bool) (context
 		}
 		resp, err := stream.CloseAndRecv()
 		tr = append(tr, "resp="+resp.GetMsg(), "err="+outcome(err))
+		if sc.Quirk == "cancel-after-end" {
+			cancel() // the call is over and was read to its end: what it delivered stays delivered
+		}
 		h, _ := stream.Header()
 		tr = append(tr, "header="+userMD(h), "trailer="+userMD(stream.Trailer()))
 	case "bidi":
@@ -493,6 +500,9 @@ func runClient(c tp.TestApiClient, sc script, mkCtx func(deadline bool) (context
 		if sc.Quirk == "send-after-end" {
 			// the call is over and the client knows: one more Send tells that, the status stays with Recv
 			tr = append(tr, "send-after-end="+outcome(stream.Send(&tp.BidiStreamRequest{Msg: "late"})))
+		}
+		if sc.Quirk == "cancel-after-end" {
+			cancel() // the call is over and was read to its end: what it delivered stays delivered
 		}
 		h, _ := stream.Header()
 		tr = append(tr, "header="+userMD(h), "trailer="+userMD(stream.Trailer()))
@@ -697,6 +707,11 @@ func scripts(thorough bool) []script {
 	for _, q := range []string{"md-incoming", "md-outgoing", "md-both"} {
 		for _, shape := range []string{"unary", "sstream", "cstream", "bidi"} {
 			out = append(out, script{Shape: shape, HeaderMode: "set", N: 1, Final: "ok", ErrAfter: -1, Client: "normal", Quirk: q})
+		}
+	}
+	for _, shape := range []string{"sstream", "cstream", "bidi"} {
+		for _, f := range []string{"ok", "status"} {
+			out = append(out, script{Shape: shape, HeaderMode: "set", Trailer: true, N: 1, Final: f, ErrAfter: -1, Client: "normal", Quirk: "cancel-after-end"})
 		}
 	}
 	for _, f := range []string{"ok", "status", "plain"} {
